@@ -563,6 +563,14 @@ func main() {
 	defer r.Finish()
 	log.SetOutput(io.Discard)
 	if r.Replay != "" {
+		var sc scase
+		r.LoadReplay(&sc)
+		if sc.Leg != "" { // a case of a large search leg (search.go): regenerated from its parameters
+			r.Case()
+			runSearchCase(sc).reportParam(r, sc)
+			r.Sample(sc)
+			return
+		}
 		var c kase
 		r.LoadReplay(&c)
 		one(r, &c)
@@ -594,6 +602,13 @@ func main() {
 			c.ModelPer = 0
 			c.Tag = "enumerate-7"
 			one(r, c)
+		}
+	}
+	if r.Search {
+		if r.Failed() {
+			r.Note("search legs not run: the thorough generators already produced a failing input")
+		} else {
+			searchLegs(r)
 		}
 	}
 }
